@@ -20,21 +20,6 @@ CLAIMS["C09"] = (
     "Abstract mode for the orchestration (opaque ArchiveFile/pathlib objects with stable attributes); the decoder consumes `size` bytes per call (Worker.decompress contract). Filesystem side only as sink guards (C03).",
     "DESIGN.md 7 (C09)",
 )
-CLAIMS["C18"] = (
-    "Ghost event-trace contracts proved on the sequential code: per processed member exactly one start event first and one end event last carrying the member's name and size (Worker._extract_single); update events carry the bytes decoded since the last update and sum to the member size (Worker.decompress loop invariant).",
-    "Interleavings of worker threads with the reporter thread and the 1 s join timeout are outside this family (no thread semantics in any verifier available here) and are excluded from the claim.",
-    "DESIGN.md 7 (C18)",
-)
-CLAIMS["C05"] = (
-    "Termination (loop variants) and progress obligations proved per function of the read path: read_boolean/read_utf16 (bounded by count / MAX_LENGTH), read_uint64 and fixed-width readers (strict progress), Worker.decompress (lexicographic variant: bytes to deliver, packed bytes left, stalls allowed), SevenZipFile._read_digest; short reads are modelled faithfully and ordinary exceptions are allowed exits.",
-    "Wall-clock/RSS bounds and crashes inside C extensions are not contracts; allocation-size obligations of the header parser are reported as known findings where refuted (see known_findings.json).",
-    "DESIGN.md 7 (C05)",
-)
-CLAIMS["C14"] = (
-    "Placeholder signature header = (1,2,3,4) proved byte-exactly on SignatureHeader._write_skeleton, final signature header layout and CRC proved on calccrc/write (written at offset 0), reader proved to accept only a matching start-header CRC, lemma: the placeholder bytes can never satisfy the reader's postcondition.",
-    "Torn writes inside the final 32 bytes, dropped/reordered buffered blocks and stale-header collisions depend on CRC32 collision freeness and a storage model: excluded (not decidable in this family).",
-    "DESIGN.md 7 (C14)",
-)
 CLAIMS["C20"] = (
     "Buffer-length contracts: Worker.decompress requests at most min(remaining, memory limit) bytes per step and every non-empty chunk is written out before the next request (proved for all sizes).",
     "Peak RSS is a measurement, not a contract; decoders that ignore max_length are covered only through the assumed decoder contract; excluded parts are listed in the evidence.",
@@ -58,11 +43,6 @@ CLAIMS["C16"] = (
     "DESIGN.md 7 (C16)",
 )
 
-CLAIMS["C10"] = (
-    "Listing functions as folds over the member list, proved for archives of any size: namelist/getnames return filename(member k) at position k; getinfo returns the first member whose name equals the query minus one trailing slash and raises KeyError exactly when no member has it; list() builds exactly one FileInfo per member, in order, from that member's own name and from the same uncompressed/crc32/is_directory fields that extraction enforces (C04/C09); needs_password() reports the flag computed by the header reader.",
-    "Abstract mode (opaque ArchiveFile objects with stable attributes). archiveinfo()/get_methods_names are not under contract yet where absent from the evidence; known findings about them are listed in known_findings.json.",
-    "DESIGN.md 7 (C10)",
-)
 
 CLAIMS["C19"] = (
     "Volume-size grammar proved for every string: a size matching the documented pattern (digits, optional unit b/k/m/g in either case, unit optional) converts without exception to number x unit factor (the factors of the help text), everything else is rejected; exit-status guards proved on every path of run_test/run_extract: status 0 only after is_7zfile, opening and testzip()/extractall() completed without an exception and testzip() found nothing; every handled exception yields a non-zero status.",
@@ -76,16 +56,6 @@ CLAIMS["C12"] = (
     "DESIGN.md 7 (C12)",
 )
 
-CLAIMS["C11"] = (
-    "Encryption plumbing as contracts on the real code: AESCompressor.compress/flush and AESDecompressor.decompress proved for EVERY sequence of chunk sizes (every plaintext/ciphertext byte reaches the cipher exactly once, in order, in whole blocks; fewer than 16 bytes pending; zero padding on flush; the returned bytes are exactly the cipher's output - no plaintext path); a password (also the empty string) without explicit filters selects the encrypting default chain; header-encryption flag plumbing (set_encrypted_header / set_encoded_header_mode / _write_header forwards both flags); needs_password reports the reader's flag.",
-    "Assumed: AES-CBC (Cryptodome) as a stream function, SHA-256/KDF strength, randomness of get_random_bytes, and that a wrong key yields bytes whose CRC differs (probability 2^-32). Secrecy of ciphertext and absence of plaintext in produced bytes as an *observation* are not contracts.",
-    "DESIGN.md 7 (C11)",
-)
-CLAIMS["C01"] = (
-    "Links of the round trip proved for all inputs on py7zr's own code: AES residue buffering for every chunking (also I/O block sizes below 16), CRC accumulation (calculate_crc32 for every block size), Worker.decompress delivers exactly the declared size and writes every decoded chunk once in order, names in stored order (namelist), the commit protocol of close() (every creating mode writes the header, incl. mode 'x').",
-    "Codecs (lzma, bz2, zlib, zstd, ppmd, brotli, bcj), AES-CBC and CRC32 are assumed stream transducers; end-to-end chaining of the proved links is a written argument (DESIGN.md 7), not one theorem; SevenZipCompressor/SevenZipDecompressor chain contracts are listed in the evidence where present.",
-    "DESIGN.md 7 (C01)",
-)
 
 CLAIMS["C03"] = (
     "Contracts on every function between a member name and a filesystem effect: canonical_path (no '..' survives below an absolute root, root kept), is_relative_to / is_path_valid (lexical containment against the cwd-joined destination), get_sanitized_output_path (result lexically inside the destination or a relative path without '..' for path=None), SevenZipFile._extract (every path registered with the worker, pre-created, re-timed or re-moded is such a result; the destination handed over is absolute), Worker._extract_single (every mkdir/open/touch/unlink/symlink_to acts on the registered path or its parent AFTER the resolved parent was checked against the resolved destination; a link is only created after its resolved target passed the same check).",
@@ -99,14 +69,55 @@ CLAIMS["C02"] = (
     "DESIGN.md 7 (C02), 11",
 )
 
+
+
+CLAIMS["C05"] = (
+    'Termination (loop variants) and progress obligations proved per function of the read path: read_boolean/read_utf16 (bounded by count / MAX_LENGTH), read_uint64 and the fixed-width readers (strict progress), PackInfo._read (every count-driven loop runs at most once per consumed byte: post#work-bounded-by-input; streams without sizes are rejected), SubstreamsInfo._read (loop invariants), UnpackInfo._retrieve_coders_info and FilesInfo._read (each record confined to its declared size, padding skipped by exactly its size), Header._read (an encoded header is decoded at most once - no nesting), Worker.decompress (lexicographic variant: bytes to deliver, packed bytes left, stalls allowed), SevenZipFile._read_digest, AESDecompressor.__init__ (the key-derivation work factor taken from the archive is bounded by 2**24 rounds before the KDF runs).',
+    'Wall-clock/RSS bounds and crashes inside C extensions are not contracts. FilesInfo._read allocates one record per DECLARED file before reading any property (a 42-byte archive declaring 2**36 files): observed, not under a check (DESIGN.md 11.3). Folder._read is not under contract.',
+    'DESIGN.md 7 (C05), 11',
+)
+
 CLAIMS["C06"] = (
-    "Reader conformance as contracts against the 7z format: header primitives for all encodings (C17 contracts), SignatureHeader._read, PackInfo._read (pack position, sizes, Digests structure with one CRC per DEFINED digest, END marker position, prefix-sum pack positions, for every count - ghost cut offsets over the input bytes), SevenZipFile._real_get_contents (header parsed only after its CRC matched; members appended in header order; a member's digest is present exactly when its OWN defined flag is set and is its own; cursor of non-empty members advances by one; password flag from every folder), _get_fileinfo_sizes (size of the k-th non-empty member is unpacksizes[k]), Worker.extract / extract_single (every folder with members gets exactly one decoding task at its own pack offsets).",
-    "Not under contract yet (listed as such in DESIGN.md 11): SubstreamsInfo._read, UnpackInfo._read, Folder._read, FilesInfo._read, StreamsInfo.read, Header._read, SevenZipDecompressor chain selection; the folder/stream arithmetic of _real_get_contents is covered by per-iteration trace obligations, not by one inductive invariant. Codec libraries and third-party writers are assumed to follow their contracts. Genuine defects found here and repaired (FX11-FX15) are recorded in known_findings.json.",
-    "DESIGN.md 7 (C06), 11",
+    "Reader conformance as contracts against the 7z format: header primitives for all encodings (C17 contracts), SignatureHeader._read, PackInfo._read (pack position, sizes, Digests structure with one CRC per DEFINED digest, END marker position, prefix-sum pack positions, for every count - ghost cut offsets over the input bytes), SubstreamsInfo._read (loop invariants over all folders / substreams: sizes from the Size record with the remainder rule, folders without streams, digest hand-out between folder-level CRCs and the record with the running record index pinned), UnpackInfo._retrieve_coders_info, FilesInfo._read (record walk) with _read_name / _read_times / _read_attributes (member k gets the k-th stored value, undefined stays undefined), Header._read, SevenZipFile._real_get_contents (header parsed only after its CRC matched; members appended in header order and to their folder's list under their own index; a member's digest is present exactly when its OWN defined flag is set; password flag from every folder), _get_fileinfo_sizes, ArchiveFileList (ids), Worker.extract / extract_single (every folder with members gets exactly one decoding task at afterheader + pack position + packpositions[i]).",
+    'Not under contract: Folder._read, UnpackInfo._read (outer part), StreamsInfo.read, SevenZipDecompressor.__init__ (chain selection), FilesInfo._read_start_pos (observed: its assert compares bytes with an int). The exit clauses of SubstreamsInfo._read that restate the invariants over the whole section are drafted but not discharged (disabled, DESIGN.md 11). The folder/stream arithmetic of _real_get_contents is covered by per-iteration trace obligations, not by one inductive invariant. Codec libraries and third-party writers are assumed to follow their contracts. Genuine defects found and repaired: FX11-FX16, FX18, FX19.',
+    'DESIGN.md 7 (C06), 11',
 )
 
 CLAIMS["C08"] = (
-    "Append as contracts on the real code: SubstreamsInfo.write (exact layout for every folder/stream count: NumUnpackStream record iff some folder differs from one, a size NUMBER for every substream except the last of its folder with the cursor over ALL substreams, Digests structure, END) and PackInfo.write proved byte-exactly with ghost cut offsets; FilesInfo writers (C07); Header.initialize in append mode adds exactly one folder at the end, bumps the folder count and appends a zero stream counter, touching nothing else; Worker._after_write appends one size/CRC/flag and increments the LAST folder's counter; Worker.flush_archive records exactly one pack stream; Worker.__init__ starts the write cursor behind the existing members; _prepare_append positions the file at the end of the packed streams; PackInfo._read (re-read side).",
-    "BOUNDED stand-in (labelled bounded in the evidence, not counted as proved): every 2-session history with up to 2 members per session over file / zero-length file / directory / zero-length writestr plus 100 seeded 3-session histories is run on the real code each quick run (all 3-session histories in the thorough tier). Otherwise histories are not enumerated: each session is the same code under the same contracts and the member list after a session is old ++ new by these per-call contracts (written argument, DESIGN.md 7). UnpackInfo.write / Folder.write / Header.write and the whole-header round trip are not under contract yet. Genuine defects found and repaired: FX11 (CRC per defined digest), FX12 (w([a]) a([b,c]) corrupted the archive), FX15 (zero-stream folders).",
-    "DESIGN.md 7 (C08), 11",
+    "Append as contracts on the real code: SubstreamsInfo.write (exact layout for every folder/stream count: NumUnpackStream record iff some folder differs from one, a size NUMBER for every substream except the last of its folder with the cursor over ALL substreams, Digests structure with one CRC per defined digest, END) and PackInfo.write proved byte-exactly with ghost cut offsets; UnpackInfo.write (section skeleton, every folder once, no extra records); FilesInfo writers (C07); Header.initialize in append mode adds exactly one folder at the end, bumps the folder count and appends a zero stream counter, touching nothing else; Worker._after_write appends one size/CRC/flag and increments the LAST folder's counter; Worker.archive archives exactly the member at the cursor and advances it by one; Worker.flush_archive records exactly one pack stream; Worker.__init__ starts the cursor behind the existing members; _prepare_append positions the file at afterheader + pack position + total packed size; the read side (PackInfo._read, SubstreamsInfo._read, FilesInfo readers).",
+    'BOUNDED stand-in (labelled bounded in the evidence, not counted as proved): every 2-session history with up to 2 members per session over file / zero-length file / directory / zero-length writestr plus 100 seeded 3-session histories is run on the real code each quick run (all 3-session histories in the thorough tier). Otherwise histories are not enumerated: each session is the same code under the same contracts and the member list after a session is old ++ new by these per-call contracts (written argument, DESIGN.md 7). Folder.write / Header.write / StreamsInfo.write are not under contract. Genuine defects found and repaired: FX11, FX12, FX15, FX16, FX17, FX19.',
+    'DESIGN.md 7 (C08), 11',
 )
+
+CLAIMS["C10"] = (
+    "Listing functions as folds over the member list, proved for archives of any size: namelist/getnames return filename(member k) at position k; getinfo returns the first member whose name equals the query minus one trailing slash and raises KeyError exactly when no member has it; list() builds exactly one FileInfo per member, in order, from that member's own name and from the same uncompressed/crc32/is_directory fields that extraction enforces (C04/C09); ArchiveFile.crc32 is the stored digest whatever its value (0 included) and None only when absent; _is_solid is true exactly when some folder holds several members; needs_password() reports the flag that _real_get_contents computes from EVERY folder's coder chain.",
+    'Abstract mode (opaque ArchiveFile objects with stable attributes). archiveinfo()/get_methods_names are not under contract (Delta/Brotli missing from the method names and archiveinfo() on an empty archive: observed during design, not under a check).',
+    'DESIGN.md 7 (C10), 11',
+)
+
+CLAIMS["C11"] = (
+    "Encryption plumbing as contracts on the real code: AESCompressor.compress/flush and AESDecompressor.decompress proved for EVERY sequence of chunk sizes (every plaintext/ciphertext byte reaches the cipher exactly once, in order, in whole blocks; fewer than 16 bytes pending; zero padding on flush; the returned bytes are exactly the cipher's output - no plaintext path); AESCompressor.__init__ draws a fresh 16-byte IV during construction, hands exactly that value to the cipher and keeps it for the coder properties, and derives the key with the cycles/salt it announces; AESDecompressor.__init__ uses the stored cycles/salt/IV; a password (also the empty string) without explicit filters selects the encrypting default chain; header-encryption flag plumbing (set_encrypted_header / set_encoded_header_mode / _write_header forwards both flags); needs_password reports the reader's flag.",
+    'Assumed: AES-CBC (Cryptodome) as a stream function, SHA-256/KDF strength, randomness of get_random_bytes, and that a wrong key yields bytes whose CRC differs (probability 2^-32). Secrecy of ciphertext and absence of plaintext in produced bytes as an *observation* are not contracts. Header.write/_encode_header and the KDF batching are not under contract.',
+    'DESIGN.md 7 (C11), 11',
+)
+
+CLAIMS["C14"] = (
+    "Placeholder signature header = (1,2,3,4) proved byte-exactly on SignatureHeader._write_skeleton and written FIRST by _prepare_write (before the data area is located), final signature header layout and CRC proved on calccrc/write (written at offset 0), reader proved to accept only a matching start-header CRC, lemma: the placeholder bytes can never satisfy the reader's postcondition; close()/_write_flush/_write_header commit order; _prepare_append starts behind the existing packed streams (>= 32).",
+    'Torn writes inside the final 32 bytes, dropped/reordered buffered blocks and stale-header collisions depend on CRC32 collision freeness and a storage model: excluded (not decidable in this family).',
+    'DESIGN.md 7 (C14), 11',
+)
+
+CLAIMS["C18"] = (
+    "Ghost event-trace contracts proved on the sequential code: per processed member exactly one start event first and one end event last carrying the member's name and size (Worker._extract_single); update events carry the bytes decoded since the last update and sum to the member size (Worker.decompress loop invariant); members that are only decoded to be skipped report nothing (no reporter queue on the _check path); pre first / post last (_extract); close() returns only after the reporter finished.",
+    'Interleavings of worker threads with the reporter thread and the 1 s join timeout are outside this family (no thread semantics in any verifier available here) and are excluded from the claim.',
+    'DESIGN.md 7 (C18), 11',
+)
+
+CLAIMS["C01"] = (
+    "Links of the round trip proved for all inputs on py7zr's own code: AES residue buffering for every chunking (also I/O block sizes below 16), SevenZipCompressor.compress / unpacksizes, SevenZipDecompressor.decompress/_decompress/_read_data, CRC accumulation (calculate_crc32 for every block size), Worker.decompress delivers exactly the declared size and writes every decoded chunk once in order, member ids (ArchiveFileList: every member keeps its archive-wide id inside its folder's list), writestr/writef members always occupy a substream, Worker.archive / _after_write bookkeeping, names in stored order (namelist), the commit protocol of close() (every creating mode writes the header, incl. mode 'x').",
+    'Codecs (lzma, bz2, zlib, zstd, ppmd, brotli, bcj), AES-CBC and CRC32 are assumed stream transducers; end-to-end chaining of the proved links is a written argument (DESIGN.md 7), not one theorem.',
+    'DESIGN.md 7 (C01), 11',
+)
+
+TECH_EXTRA["C02"] = "; the attribute-word and timestamp obligations are VCs generated from the AST by pyvc/bvexec.py (bit-vectors) and pyvc/floatvc.py (real arithmetic with a stated binary64 rounding-error model), discharged by z3"
+TECH_EXTRA["C08"] = "; plus one BOUNDED stand-in (create/append histories on the real code, labelled bounded, never counted as proved)"
